@@ -135,6 +135,28 @@ func main() {
 		os.Exit(cmdVerify(os.Args[2:]))
 	case "check":
 		os.Exit(cmdCheck(os.Args[2:]))
+	case "list-props":
+		// prints "<prop> <contract key>" for every contract (development aid for spec/props.json)
+		w, err := loadWorld("/repo", []string{"./..."})
+		if err != nil {
+			fmt.Fprintln(os.Stderr, err)
+			os.Exit(2)
+		}
+		db, err := loadSpecs(w, "/verif/spec")
+		if err != nil {
+			fmt.Fprintln(os.Stderr, err)
+			os.Exit(2)
+		}
+		var keys []string
+		for k := range db.contracts {
+			keys = append(keys, k)
+		}
+		sort.Strings(keys)
+		for _, k := range keys {
+			for _, p := range db.contracts[k].Props {
+				fmt.Println(p, k)
+			}
+		}
 	default:
 		fmt.Fprintln(os.Stderr, "unknown command")
 		os.Exit(2)
@@ -171,6 +193,14 @@ func registerHeaps(w *World) {
 						heapSorts[ek] = es
 					}
 				}()
+			}
+		}
+	}
+	chHasGhost(types.NewStruct(nil, nil))
+	for path, p := range w.Pkgs {
+		if isRepoPkg(path) && p.Types.Name() == "actions" {
+			if o := p.Types.Scope().Lookup("plugResp"); o != nil {
+				chHasGhost(o.Type())
 			}
 		}
 	}
